@@ -1,16 +1,18 @@
 \* C03 quick: object-level layer (mutable Version objects): closed state space of two objects over
-\* epoch absent/0, revision absent/0, upstream <= 2 characters over 0 1 (24 versions, 576 states),
-\* every assignment of full_version / epoch / upstream_version / debian_revision to object 1
+\* epoch absent/0, revision absent/0, upstream 1 character 0 / 1 (8 start versions), objects reach every in-domain string of <= 5 characters;
+\* every assignment of full_version / epoch / upstream_version / debian_revision to object 1, including the
+\* boundary-moving values (upstream "x-y" "d:y", revision "x-0", None with '-' / ':' in the upstream part)
 CONSTANTS
   HashOnString = FALSE
   TildeOrderZero = FALSE
   StaleKey = FALSE
   NoResplit = FALSE
   Boundary = TRUE
+  MaxFull = 5
   Epochs <- E_two
   Revs <- R_two
   UpChars = {48, 49}
-  MaxUp = 2
+  MaxUp = 1
   Seps = FALSE
   Triples = FALSE
   EmitStride = 0
